@@ -377,6 +377,26 @@ func checkC11(e *Engine, r *Report) {
 				okSlice = true
 			}
 		})
+		// amounts: module events carry coin LISTS (withdraw_rewards emits sdk.Coins); the log amount is the bond-denom part
+		okAmt := true
+		nAmt := 0
+		for _, f := range append([]*ssa.Function{auto}, auto.AnonFuncs...) {
+			for _, c := range callsIn(f, false, func(c ssa.CallInstruction) bool {
+				fo := calleeObj(c)
+				return fo != nil && fo.Pkg() != nil && fo.Pkg().Path() == pkgCpcKeeper && strings.HasPrefix(fo.Name(), "emitsEvent")
+			}) {
+				nAmt++
+				a := c.Common().Args
+				amt := backSlice(a[3], SliceOpts{ThroughCallArgs: alwaysThrough, IntoCallees: func(g *ssa.Function) bool { return g.Parent() == auto }, Depth: 2})
+				if !(amt.HasCall(CallSpec{pkgSdkTypes, "", "ParseCoinsNormalized"}) && amt.Has(func(v ssa.Value) bool {
+					cc, ok := v.(*ssa.Call)
+					return ok && isCallTo(cc, CallSpec{pkgSdkTypes, "Coins", "AmountOf"})
+				}) && amt.Has(func(v ssa.Value) bool { cc, ok := v.(*ssa.Call); return ok && isMethodNamed(cc, "BondDenom") })) || amt.HasCall(CallSpec{pkgSdkTypes, "", "ParseCoinNormalized"}) {
+					okAmt = false
+				}
+			}
+		}
+		r.Check(okAmt && nAmt >= 5, "autoEmitEventsFromSdkEvents › log amount = bond-denom part of the event's coin list", e.Pos(auto.Pos()), "ParseCoinsNormalized(attr).AmountOf(BondDenom(ctx))", "the amount of a Delegate/Undelegate/WithdrawReward log is not the bond-denomination part of the module event's coin list (a reward paid in several denominations makes the call fail, or a foreign-denomination amount is logged)")
 		r.Check(okNew && okSlice, "autoEmitEventsFromSdkEvents › only events emitted since the count", e.Pos(auto.Pos()), "events[originalEventCounts:], error if none", "logs are not derived from exactly the newly emitted module events")
 	})
 
